@@ -474,6 +474,15 @@ def validate_trace(ctx, module, trace, stage, run_ev, env=None, cfg=None, timeou
         detail["violated"] = r.violated
         detail["last_state"] = r.cex[-1] if r.cex else None
         case["violated"] = r.violated
+        m = re.search(r"\bl = (\d+)", r.cex[-1]) if r.cex else None
+        if m and 2 <= int(m.group(1)) <= len(lines) + 1:
+            i = int(m.group(1)) - 1          # the event judged by the invariant is the one just consumed
+            detail["judged_event_index"] = i
+            try:
+                detail["judged_event"] = json.loads(lines[i - 1])
+                case["event"] = detail["judged_event"]
+            except Exception:
+                pass
     keep = os.path.join(ROOT, "replays", "%s-%s-%d-%s" % (ctx.pid, ctx.tier, ctx.seed, os.path.basename(trace)))
     os.makedirs(os.path.dirname(keep), exist_ok=True)
     shutil.copyfile(trace, keep)
